@@ -390,7 +390,8 @@ def run(ctx):
                 "static method on free inputs incl. each violated assertion; invalid constructor inputs; gamma_to_natural on "
                 "the same scipy values. C: statement on the real class. Non-trivial = history with >= 2 epochs (breaks "
                 "exercised) or multi-epoch gamma case; distinct by canonical hash of the input.")
-    stats["hyp_initOk_rate"] = 1.0
+    n_invalid = sum(stats["invalid"].values())
+    stats["hyp_initOk_rate"] = stats["hyp_initOk"] / max(1, stats["hyp_initOk"] + n_invalid)   # over all constructor inputs generated
     res.extra = dict(input_distribution=stats)
     return res
 
